@@ -35,7 +35,7 @@ def cases(tier, seed):
                 out.append({"nx": nx, "ny": ny, "halo": h, "tier": tier, "seed": seed})
     # coordinate clause over many (extent, cell count) pairs: x = i*dx, y = j*dy must hold for every accepted grid, also where
     # extent / count is not exactly representable (300 m / 7, 100 m / 29, 0.3 m / 3)
-    for i in range(16 if tier == "quick" else 256):
+    for i in range(16 if tier == "quick" else 1024):
         out.append({"seed": seed, "kind": "coords", "idx": i, "tier": tier, "_cost": 4})
     out_ = out
     if tier == "thorough":
